@@ -384,6 +384,31 @@ def check(ctx):
                                                                      and isinstance(c.args[0].value, int) and c.args[0].value > 0):
                                     ok = True
                                     how = 'every iteration performs the consuming read %s' % c.func.attr
+                if not ok and isinstance(cnt, ast.Name) and cnt.id in flow.param_names(f):
+                    # the count is a parameter of a helper: the same idiom at every call site (the argument was consumed as a bit width by a guarded read before the call)
+                    idx_ = flow.param_names(f).index(cnt.id) - (1 if flow.param_names(f)[:1] == ['self'] else 0)
+                    sites_ = []
+                    for g_ in [n_ for n_ in ast.walk(m.tree) if isinstance(n_, ast.FunctionDef) and n_ is not f]:
+                        for c_ in walk_no_nested(g_):
+                            if isinstance(c_, ast.Call) and sem.callee_name(c_) == f.name and idx_ < len(c_.args):
+                                sites_.append((g_, c_))
+                    good_ = 0
+                    for g_, c_ in sites_:
+                        a_ = c_.args[idx_]
+                        if not isinstance(a_, ast.Name):
+                            continue
+                        for s in flow.stmts_before(g_, Model.enclosing_stmt(c_)):
+                            for c2 in [s] + list(walk_no_nested(s)):
+                                if isinstance(c2, ast.Call) and isinstance(c2.func, ast.Attribute) and c2.func.attr in WIDTH_READS and c2.args and isinstance(c2.args[0], ast.Name) \
+                                        and c2.args[0].id == a_.id and not any(isinstance(p_, (ast.If, ast.For, ast.While)) for p_ in _ancestors_until(c2, g_)):
+                                    good_ += 1
+                                    break
+                            else:
+                                continue
+                            break
+                    if sites_ and good_ == len(sites_):
+                        ok = True
+                        how = 'at each of the %d call sites the count was consumed as a bit width by a guarded read before the call (count <= remaining bits)' % len(sites_)
                 if not ok and kind == 'UNKNOWN':
                     ctx.instance('C08.R3', cons, 'undecided', 'the origin of the count could not be traced: ' + why, node=node, file=rel)
                     continue
